@@ -427,7 +427,13 @@ class Model:
                 shape = 'ShStr'
             else:
                 ps = []
-                for n, t, req in introspection.class_subobjects(cls):
+                # parameters read from the signature itself (not through yatiml.introspection): required iff no default
+                sig = inspect.signature(cls.__init__)
+                subobjects = [(pn, typing.Any if pp.annotation is inspect.Parameter.empty else pp.annotation,
+                               pp.default is inspect.Parameter.empty)
+                              for pn, pp in sig.parameters.items() if pn not in ('self', '_yatiml_extra')
+                              and pp.kind in (pp.POSITIONAL_OR_KEYWORD, pp.POSITIONAL_ONLY)]
+                for n, t, req in subobjects:
                     ps.append('{| p_name := %s; p_ty := %s; p_required := %s |}' %
                               (coq_ustr(n), ty_term(t, regnames), 'true' if req else 'false'))
                 extra = '_yatiml_extra' in inspect.getfullargspec(cls.__init__).args
